@@ -3,21 +3,6 @@ From MM Require Import Lib.Bytes Model.Placeholders.
 Import ListNotations.
 Open Scope N_scope.
 
-(* ---- the one-pass scanner computes the regex's look-ahead condition --------------------------- *)
-Lemma scan_spec t : scan t = (spec_flags t, Nat.even (count_quotes t)).
-Proof.
-  induction t as [|c r IH]; [reflexivity|].
-  cbn [scan spec_flags]. rewrite IH. unfold count_quotes. cbn [filter].
-  destruct (is_quote c) eqn:Q.
-  - cbn [length]. rewrite Nat.even_succ, <- Nat.negb_even. f_equal. f_equal.
-    unfold is_quote, QMARK, DQUOTE, QUOTE, BTICK in *.
-    destruct (N.eqb_spec c 63) as [->|]; [discriminate Q|reflexivity].
-  - reflexivity.
-Qed.
-
-Theorem flags_spec t : flags t = spec_flags t.
-Proof. unfold flags. now rewrite scan_spec. Qed.
-
 (* ---- string literals denote exactly their contents ------------------------------------------ *)
 Definition not_quote_start (rest : text) : Prop :=
   match rest with [] => True | c :: _ => c <> QUOTE end.
@@ -47,51 +32,90 @@ Proof.
 Qed.
 
 (* ---- on the grammar, the recognised positions are exactly the holes ------------------------------ *)
-Lemma scan_plain t b : forallb (fun c => negb (is_quote c) && negb (c =? QMARK)) t = true ->
-  scan (t ++ b) = (repeat false (length t) ++ fst (scan b), snd (scan b)).
+Lemma scanf_plain t b : forallb (fun c => negb (is_quote c) && negb (c =? QMARK)) t = true ->
+  scanf None false (t ++ b) = repeat false (length t) ++ scanf None false b.
 Proof.
-  induction t as [|c t IH]; intros H; cbn [app length repeat].
-  - now destruct (scan b).
-  - cbn [forallb] in H. apply andb_prop in H. destruct H as [H1 H2].
-    apply andb_prop in H1. destruct H1 as [Hq Hm].
-    cbn [scan]. rewrite IH by assumption. apply negb_true_iff in Hq, Hm. rewrite Hq, Hm. reflexivity.
+  induction t as [|c t IH]; intros H; cbn [app length repeat]; [reflexivity|].
+  cbn [forallb] in H. apply andb_prop in H. destruct H as [H1 H2].
+  apply andb_prop in H1. destruct H1 as [Hq Hm]. apply negb_true_iff in Hq, Hm.
+  cbn [scanf]. rewrite Hq, Hm, IH by assumption. reflexivity.
 Qed.
 
-Lemma scan_noquote t b : forallb (fun c => negb (is_quote c)) t = true -> snd (scan b) = false ->
-  scan (t ++ b) = (repeat false (length t) ++ fst (scan b), false).
+Lemma quote_not_bslash q : is_quote q = true -> (BSLASH =? q) = false.
 Proof.
-  induction t as [|c t IH]; intros H Hb; cbn [app length repeat].
-  - destruct (scan b); cbn in *; now subst.
-  - cbn [forallb] in H. apply andb_prop in H. destruct H as [Hq H2].
-    cbn [scan]. rewrite IH by assumption. apply negb_true_iff in Hq. rewrite Hq.
-    now rewrite andb_false_r.
+  unfold is_quote, BSLASH, DQUOTE, QUOTE, BTICK. intros H.
+  destruct (N.eqb_spec 92 q) as [<-|]; [discriminate H|reflexivity].
 Qed.
 
-Lemma scan_seg s b : seg_ok s = true -> snd (scan b) = true ->
-  scan (render_seg s ++ b) = (seg_flags s ++ fst (scan b), true).
+(* inside a quoted segment nothing is a placeholder and the scan leaves it exactly at the closing quote *)
+Lemma scanf_body q body b : is_quote q = true -> forallb (item_ok q) body = true ->
+  scanf (Some q) false (render_body body ++ q :: b) =
+  repeat false (length (render_body body)) ++ false :: scanf None false b.
 Proof.
-  intros Hs Hb. destruct s as [t| |q body]; cbn [render_seg seg_flags seg_ok] in *.
-  - rewrite scan_plain by assumption. now rewrite Hb.
-  - cbn [app scan]. destruct (scan b) as [fb eb]; cbn in *; subst. reflexivity.
+  intros Hq. induction body as [|i body IH]; intros H.
+  - cbn [render_body flat_map app length repeat scanf]. now rewrite N.eqb_refl.
+  - cbn [forallb] in H. apply andb_prop in H. destruct H as [Hi Hb]. specialize (IH Hb).
+    unfold render_body in *. cbn [flat_map]. destruct i as [c|c]; cbn [render_item item_ok] in *.
+    + apply andb_prop in Hi. destruct Hi as [Hc He]. apply negb_true_iff in Hc.
+      cbn [app length repeat scanf]. rewrite Hc.
+      assert (E : (c =? BSLASH) && negb (q =? BTICK) = false).
+      { destruct (q =? BTICK); [apply andb_false_r|]. cbn in He. apply negb_true_iff in He. now rewrite He. }
+      rewrite E, IH. reflexivity.
+    + apply negb_true_iff in Hi.
+      cbn [app length repeat scanf]. rewrite (quote_not_bslash q Hq), N.eqb_refl, Hi. cbn [negb andb].
+      rewrite IH. reflexivity.
+Qed.
+
+Lemma scanf_seg s b : seg_ok s = true ->
+  scanf None false (render_seg s ++ b) = seg_flags s ++ scanf None false b.
+Proof.
+  intros Hs. destruct s as [t| |q body]; cbn [render_seg seg_flags seg_ok] in *.
+  - now apply scanf_plain.
+  - reflexivity.
   - apply andb_prop in Hs. destruct Hs as [Hq Hbody].
-    cbn [app scan]. rewrite <- app_assoc.
-    assert (E : scan ([q] ++ b) = (false :: fst (scan b), false)).
-    { cbn [app scan]. destruct (scan b) as [fb eb]; cbn in *; subst. now rewrite Hq. }
-    rewrite scan_noquote; [|assumption|now rewrite E].
-    rewrite E, Hq. cbn [fst negb app]. now rewrite <- app_assoc.
+    cbn [app scanf]. rewrite Hq. rewrite <- app_assoc. cbn [app].
+    rewrite scanf_body by assumption. rewrite <- app_assoc. reflexivity.
 Qed.
 
-Lemma scan_render tpl : forallb seg_ok tpl = true ->
-  scan (render tpl) = (hole_flags tpl, true).
+Lemma scan_render tpl : forallb seg_ok tpl = true -> scanf None false (render tpl) = hole_flags tpl.
 Proof.
   induction tpl as [|s tpl IH]; intros H; [reflexivity|].
   cbn [forallb] in H. apply andb_prop in H. destruct H as [Hs Ht].
   unfold render, hole_flags in *. cbn [flat_map].
-  rewrite scan_seg; [|assumption|now rewrite IH]. now rewrite IH.
+  rewrite scanf_seg by assumption. now rewrite IH.
 Qed.
 
 Theorem placeholders_are_holes tpl : forallb seg_ok tpl = true -> flags (render tpl) = hole_flags tpl.
-Proof. intros H. unfold flags. now rewrite scan_render. Qed.
+Proof. intros H. unfold flags. now apply scan_render. Qed.
+
+(* one flag per character, and only a question mark is ever flagged: whatever the text - grammatical or not, quotes
+   unbalanced, a dangling backslash - interpolation touches nothing but question marks *)
+Lemma scanf_length t : forall o e, length (scanf o e t) = length t.
+Proof.
+  induction t as [|c t IH]; intros o e; [reflexivity|]. cbn [scanf length].
+  destruct e; [cbn [length]; now rewrite IH|].
+  destruct o as [q|].
+  - destruct (c =? q); [|destruct ((c =? BSLASH) && negb (q =? BTICK))]; cbn [length]; now rewrite IH.
+  - destruct (is_quote c); cbn [length]; now rewrite IH.
+Qed.
+
+Lemma scanf_only_qmarks t : forall o e i, nth i (scanf o e t) false = true -> nth i t 0 = QMARK.
+Proof.
+  induction t as [|c t IH]; intros o e i H.
+  - destruct i; discriminate H.
+  - cbn [scanf] in H.
+    assert (G : forall fl, (forall j, nth j fl false = true -> nth j t 0 = QMARK) ->
+                nth i (false :: fl) false = true -> nth i (c :: t) 0 = QMARK).
+    { intros fl Hfl Hn. destruct i as [|j]; [discriminate Hn|]. cbn [nth] in *. now apply Hfl. }
+    destruct e; [refine (G _ _ H); intros j; apply IH|].
+    destruct o as [q|].
+    + destruct (c =? q); [refine (G _ _ H); intros j; apply IH|].
+      destruct ((c =? BSLASH) && negb (q =? BTICK)); refine (G _ _ H); intros j; apply IH.
+    + destruct (is_quote c); [refine (G _ _ H); intros j; apply IH|].
+      destruct i as [|j]; cbn [nth] in *.
+      * now apply N.eqb_eq in H.
+      * now apply (IH None false).
+Qed.
 
 Lemma count_hole_flags tpl : length (filter (fun b : bool => b) (hole_flags tpl)) = holes tpl.
 Proof.
@@ -122,10 +146,11 @@ Proof.
   destruct s as [t| |q b]; cbn [render_seg seg_flags fill].
   - rewrite splice_false. now rewrite IH.
   - cbn [app splice]. destruct lits as [|l ls]; now rewrite IH.
-  - replace (q :: b ++ [q]) with ((q :: b ++ [q]) ++ []) at 1 by apply app_nil_r.
-    change (false :: repeat false (length b) ++ [false]) with (repeat false 1 ++ repeat false (length b) ++ repeat false 1).
+  - set (bb := render_body b).
+    replace (q :: bb ++ [q]) with ((q :: bb ++ [q]) ++ []) at 1 by apply app_nil_r.
+    change (false :: repeat false (length bb) ++ [false]) with (repeat false 1 ++ repeat false (length bb) ++ repeat false 1).
     rewrite <- !repeat_app.
-    replace (1 + (length b + 1))%nat with (length (q :: b ++ [q])) by (cbn [length]; rewrite app_length; cbn; lia).
+    replace (1 + (length bb + 1))%nat with (length (q :: bb ++ [q])) by (cbn [length]; rewrite app_length; cbn; lia).
     rewrite app_nil_r. rewrite splice_false. now rewrite IH.
 Qed.
 
